@@ -241,6 +241,21 @@ def rsa_keypair_denylisted(r, bits=2048):
   return rsa_art(int(p) * int(q), fam="keypair", expect=["CheckKeypairDenylist"])
 
 
+def rsa_keypair_msb_collision(r, bits=None):
+  """A modulus that is NOT a keypair key but whose 64 most significant bits
+  equal an entry of the keypair table (the check's lookup key): exercises the
+  path 'table hit, regenerate, compare' for arbitrary sizes."""
+  from paranoid_crypto.lib.data import default_storage
+  keys = sorted(default_storage.DefaultStorage().GetKeypairData().table)
+  if not keys:
+    return None
+  key = keys[r.randrange(len(keys))]
+  bits = bits or r.choice([65, 66, 100, 127, 128, 511, 1023, 1024, 2047, 2048])
+  low = bits - 64
+  n = (key << low) | (r.getrandbits(low) | 1 if low else 0)
+  return rsa_art(n, fam="keypair_msb_collision", bits=bits)
+
+
 def rsa_low_hamming(r, bits=2048):
   half = bits // 2
 
